@@ -94,7 +94,8 @@ class Normalise(ast.NodeTransformer):
     # -- expressions ----------------------------------------------------------------------
     def visit_UnaryOp(self, n):
         self.generic_visit(n)
-        if isinstance(n.op, ast.Not):
+        if isinstance(n.op, ast.Not) and not getattr(self, "in_cmp_dunder", False):
+            # (inside __eq__ / __ne__ / __lt__ ... `not (self == other)` must stay: rewriting it to `self != other` would define the operator by itself)
             t = n.operand
             if isinstance(t, ast.Compare) and len(t.ops) == 1 and type(t.ops[0]) in _NEG_OP:
                 return self._orient(ast.copy_location(ast.Compare(left=t.left, ops=[_NEG_OP[type(t.ops[0])]()], comparators=t.comparators), n))
@@ -169,6 +170,12 @@ class Normalise(ast.NodeTransformer):
                 return self._visit_function(n)
             finally:
                 self.in_helper = prev
+        if n.name in ("__eq__", "__ne__", "__lt__", "__le__", "__gt__", "__ge__"):
+            prev, self.in_cmp_dunder = getattr(self, "in_cmp_dunder", False), True
+            try:
+                return self._visit_function(n)
+            finally:
+                self.in_cmp_dunder = prev
         return self._visit_function(n)
 
     @staticmethod
